@@ -1,5 +1,6 @@
 import TsRsVerif.Model.Deps
 import TsRsVerif.Lemmas.DenotLemmas
+import TsRsVerif.Lemmas.UnfoldCheck
 /-!
 # C14 — inline, flatten and `as` change presentation, never meaning
 
@@ -114,5 +115,33 @@ whenever the two have no property name in common (JSON objects with distinct key
 theorem C14_flatten_is_merge (D : Decls) (A B : List (TsKey × Ts)) (kvs : List (Str × JVal))
     (hdisj : ∀ k, k ∈ namesOf A → k ∉ namesOf B) (hnd : (kvs.map (·.1)).Nodup) :
     Member D (.inter [.obj A, .obj B]) (.obj kvs) ↔ Member D (.obj (A ++ B)) (.obj kvs) := inter_objs_iff D A B kvs hdisj hnd
+
+open Ts in
+/-- **inline changes presentation, never meaning — for whole sets of declarations**: let `D'` be obtained from `D` by unfolding
+references inside the declaration bodies — any number of them, at any depth (inside arrays, tuples, objects, maps, unions,
+intersections, below other unfolded references), parenthesised or not, a union reached by unfolding an arm of a union spliced
+into it: everything `#[ts(inline)]` does. Then every type `t` under `D` and each of its unfoldings `t'` under `D'` have exactly
+the same JSON values. `WSD D`: every declaration mentions only its own type parameters (C07). -/
+theorem C14_unfolding_same_values (D D' : Decls) (hw : WSD D) (hd : DeclsUnf D D') (t t' : Ts) (u : Unf D t t') (j : JVal) :
+    Member D t j ↔ Member D' t' j := unfold_same_values hw hd u j
+
+open Ts in
+/-- … in the form the check uses: when the executable test accepts the pair (declarations of the program without its `inline`
+marks, parsed REAL declarations of the program with them), every reference has the same values under both -/
+theorem C14_checked_unfolding (D D' : Decls) (fuel : Nat) (hw : wsdB D = true) (h : declsUnfB D fuel D D' = true)
+    (n : Str) (args : List Ts) (j : JVal) : Member D (.ref n args) j ↔ Member D' (.ref n args) j :=
+  unfold_same_values (wsdB_sound D hw) (declsUnfB_sound D D' fuel h) (unf_refl D _) j
+
+/-! non-vacuity: a generic declaration inlined below an array inside another declaration, and an enum inlined into `.. | null` -/
+def exD : Decls := [("L".toList, [], .obj [({ name := "x".toList }, .number)]),
+  ("G".toList, ["T".toList], .obj [({ name := "t".toList }, .param "T".toList), ({ name := "l".toList }, .ref "L".toList [])]),
+  ("E".toList, [], .union [.lit "a".toList, .lit "b".toList]),
+  ("S".toList, [], .obj [({ name := "gs".toList }, .array (.ref "G".toList [.string])), ({ name := "e".toList }, .union [.ref "E".toList [], .null])])]
+def exD' : Decls := [("L".toList, [], .obj [({ name := "x".toList }, .number)]),
+  ("G".toList, ["T".toList], .obj [({ name := "t".toList }, .param "T".toList), ({ name := "l".toList }, .obj [({ name := "x".toList }, .number)])]),
+  ("E".toList, [], .union [.lit "a".toList, .lit "b".toList]),
+  ("S".toList, [], .obj [({ name := "gs".toList }, .array (.obj [({ name := "t".toList }, .string), ({ name := "l".toList }, .ref "L".toList [])])),
+                         ({ name := "e".toList }, .union [.lit "a".toList, .lit "b".toList, .null])])]
+example : wsdB exD = true ∧ declsUnfB exD 12 exD exD' = true := by decide +kernel
 
 end TsRs
